@@ -174,11 +174,15 @@ fn main() {
         }
         events.push(exec(c));
     }
-    // second pass: descending, plain
+    // second pass: descending, plain - and under a tracing subscriber that enables every call site
+    // (TRACE, written to a sink): the library's log arguments are evaluated the way
+    // RUST_LOG=rs1090=DEBUG evaluates them, and the tables must be the same with logging on
     let mut again = vec![false; calls.len()];
-    for i in (0..calls.len()).rev() {
-        again[i] = exec(&calls[i]) == events[i];
-    }
+    tracing::dispatcher::with_default(rsdriver::trace_dispatch(), || {
+        for i in (0..calls.len()).rev() {
+            again[i] = exec(&calls[i]) == events[i];
+        }
+    });
     for (i, mut ev) in events.into_iter().enumerate() {
         ev["again_same"] = Value::Bool(again[i]);
         tr.emit(ev);
